@@ -301,6 +301,10 @@ class SymWorld(World):
             self._query(nm, neg, lambda env, d=d: abs(core.evalf(d, env)) > 1e-6)
             return
         else:
+            if not isinstance(a, core.SNum) and not isinstance(b, core.SNum) and isinstance(a, core.PYNUM) and isinstance(b, core.PYNUM):
+                ok = bool(a == b)
+                self._record(nm, 'unsat-concrete' if ok else 'concrete-fail', None if ok else {'got': repr(a), 'want': repr(b)})
+                return
             an, bn = core.as_num(a), core.as_num(b)
             if an is None or bn is None:
                 ok = (a == b) if not isinstance(a, rnp.ndarray) else False
@@ -467,7 +471,7 @@ class ConcWorld(World):
             try:
                 a_, b_ = complex(a), complex(b)
                 scale = max(1.0, abs(a_), abs(b_))
-                ok = abs(a_ - b_) <= self.tol * scale
+                ok = (a_ == b_) or abs(a_ - b_) <= self.tol * scale
                 if a_ != a_ or b_ != b_:
                     ok = False
             except (TypeError, ValueError):
